@@ -82,6 +82,15 @@ def _ledger_check(acc, seed, nmax, failures, samples):
                 want = mv - (Lb['Gb'] - Lb['Gs']) - Lb['comm']
                 chk('total-pnl-is-mv-minus-cashflow-minus-commission', abs(pos.total_pnl - want) <= tol, [pos.total_pnl, want])
                 chk('total-is-realised-plus-unrealised', abs(pos.total_pnl - (pos.realised_pnl + pos.unrealised_pnl)) <= tol, [pos.total_pnl, pos.realised_pnl, pos.unrealised_pnl])
+        # portfolio-level figures are the sums over the positions held NOW (a closed position contributes nothing)
+        open_ = [held[b] for b in assets if b in held]
+        for name, agg, parts in (('total_market_value', pf.total_market_value, [x.market_value for x in open_]),
+                                 ('total_unrealised_pnl', pf.total_unrealised_pnl, [x.unrealised_pnl for x in open_]),
+                                 ('total_realised_pnl', pf.total_realised_pnl, [x.realised_pnl for x in open_]),
+                                 ('total_pnl', pf.total_pnl, [x.total_pnl for x in open_])):
+            chk('portfolio-figure-is-sum-over-held-positions', abs(agg - sum(parts)) <= tol, [name, agg, sum(parts)])
+        chk('total-is-realised-plus-unrealised', abs(pf.total_pnl - (pf.total_realised_pnl + pf.total_unrealised_pnl)) <= tol,
+            ['portfolio', pf.total_pnl, pf.total_realised_pnl, pf.total_unrealised_pnl])
         eq = cash + sum(led[b]['last'] * led[b]['q'] for b in assets if led[b]['q'] != 0)
         chk('equity-is-cash-plus-market-value', abs(pf.total_equity - eq) <= tol, [pf.total_equity, eq])
     if len(samples) < 4:
